@@ -18,6 +18,7 @@ func checkC13(r *Run) int {
 		return 2
 	}
 	defer r.Mod.Cleanup()
+	r.OwnSkipHandling = true
 	var base []*space.Case
 	base = append(base, space.F1("X")...)
 	base = append(base, space.F4()...)
@@ -87,7 +88,18 @@ func checkC13(r *Run) int {
 			}
 		}
 		for _, b := range built {
-			if b.Variant == "same" || b.Skip != "" {
+			if b.Variant == "same" {
+				continue
+			}
+			if b.Skip != "" {
+				// the plugin (or protoc-gen-gogo) produced nothing for this layout although the same-package variant is fine
+				if okSame[b.Group] {
+					msg := b.Skip
+					if b.TF != nil {
+						msg += ": " + lastLines(b.TF.Stderr, 3)
+					}
+					r.addFinding(&Finding{Property: r.ID, Kind: "separate-package-generation-fails", Shape: caseShape(b.Case) + "/" + b.Variant, Label: b.Label, Msg: msg, Count: 1, Witness: witnessOf(b)})
+				}
 				continue
 			}
 			r.Transitions++
